@@ -14,6 +14,8 @@ func init() {
 		in := fs.String("in", "-", "case file (TLC output lines)")
 		relaxed := fs.Bool("relaxed", false, "cases were generated with Relaxed = TRUE")
 		workers := fs.Int("workers", 0, "worker goroutines")
+		maxDepth := fs.Int64("maxdepth", 0, "DecodeOptions.MaxDepth the cases were generated with (0: default)")
+		depthOnly := fs.Bool("depthonly", false, "judge only acceptance and depth_exceeded rejections (the other rejections are C03's)")
 		fs.Parse(args)
 		col := run.NewCollector("cbordec")
 		r := run.Input(*in)
@@ -24,7 +26,11 @@ func init() {
 				col.Add(run.Finding{Case: idx, Step: -1, Target: "harness", Rule: "decode-case", Class: "error", Detail: err.Error()})
 				return
 			}
-			f, n := replay.ReplayCborDec(&cs, *relaxed)
+			if *depthOnly && !cs.Verdict.Acc && cs.Verdict.Why != "depth_exceeded" {
+				col.Case("", 0, nil)
+				return
+			}
+			f, n := replay.ReplayCborDec(&cs, *relaxed, *maxDepth)
 			if f != nil {
 				f.Case = idx
 				f.Input = &cs
